@@ -192,6 +192,8 @@ def other_spec(kind: str, cur: RefAction, ishape: tuple):
     if kind == "newlabels-first":  # for join along the first dim: other carries different labels there only
         labels[dims[0]] = shifted(labels[dims[0]])
         return dims, labels, shape
+    if kind == "drop-first-dim":  # other lacks the receiver's first dimension (e.g. a reduced field subtracted from members)
+        return dims[1:], {d: labels[d] for d in dims[1:]}, shape[1:]
     if kind == "extra-dim":  # for broadcast: other has one more leading dimension
         return ["w"] + dims, {"w": [100, 200], **labels}, (2,) + shape
     raise ValueError(kind)
@@ -290,10 +292,16 @@ def apply_ref(r: RefAction, op: list, ishape_now) -> RefAction:
             return r.map(lambda v: NPBIN[name](v, operand))
         dims, labels, shape = other_spec(operand, r, None)
         o = source_ref(1, shape, tuple(op[2]), dims, labels)
-        out = np.empty(r.vals.shape, dtype=object)
-        for i in np.ndindex(r.vals.shape):
-            out[i] = NPBIN[name](r.vals[i], o.vals[i])
-        return RefAction(r.dims, r.labels, out)
+        # operands are aligned by dimension NAME: the result has the receiver's dimensions followed by those only the
+        # operand has; along shared dimensions the receiver's coordinate values are kept
+        rdims = list(r.dims) + [d for d in o.dims if d not in r.dims]
+        sizes = {**o.sizes, **r.sizes}
+        out = np.empty(tuple(sizes[d] for d in rdims), dtype=object)
+        for i in np.ndindex(out.shape):
+            pos = dict(zip(rdims, i))
+            out[i] = NPBIN[name](r.vals[tuple(pos[d] for d in r.dims)], o.vals[tuple(pos[d] for d in o.dims)])
+        rlabels = {d: (r.labels[d] if d in r.labels else o.labels[d]) for d in rdims}
+        return RefAction(rdims, rlabels, out)
     if name == "transform_sel":
         # pick members by label and re-join them along the dimension they were picked from
         _, dim, picked, then_sum = op
